@@ -308,6 +308,9 @@ def part_F(run):
 
 
 def build(run):
+    from props import conformance
+
+    conformance.run_conformance(run, ['symmetric'])
     run.assume("A-ENGINE qvc VC generator + z3/cvc5", "A-PY python semantics subset",
                "A-REAL (R algebra only: float arithmetic treated as real arithmetic for the nearest / axis clauses)",
                "A-TORCH-EW point-wise ops, promotion, round = RNE, clamp, casts (float->int8 RTZ; float->float8 = RNE onto the grid)",
